@@ -1,6 +1,33 @@
-(* Props/C01.v -- placeholder until the parser proofs land: entry points agree definitionally. *)
-From JsonSyntax Require Import Base.Prelude Base.Value Base.Unicode Model.Parser Model.EntryPoints.
+(* Props/C01.v -- strict acceptance: a text parses iff it is valid RFC 8259 JSON
+   (byte input: iff it is the UTF-8 encoding of such a text).  Statements only.
+   Specification: Spec/Grammar.v (`Strict cs` = the scalar sequence cs is  ws value ws  in
+   the annotated RFC 8259 grammar with strict surrogate decoding; nothing there mentions the
+   parser) and Spec/Utf8Spec.v (well-formed UTF-8 = the encoding of some scalar sequence:
+   no overlong form, no encoded surrogate, nothing above U+10FFFF). *)
+From JsonSyntax Require Import Base.Prelude Base.Value Base.Unicode Base.Source Model.Parser Model.EntryPoints
+  Spec.Grammar Spec.Utf8Spec Proofs.ParserSpec Proofs.ParserCorollaries Proofs.Utf8Proofs.
 
+(* text input: accepted iff Strict, for EVERY character sequence *)
+Theorem C01_str : forall cs, Forall (fun c => c <= 0x10FFFF) cs ->
+  ((exists r, parse_str cs = Ok r) <-> Strict cs).
+Proof. exact ParserCorollaries.C01_str. Qed.
+
+(* byte input: accepted iff the bytes are the UTF-8 encoding of a Strict scalar sequence *)
+Theorem C01_slice : forall bs,
+  (exists r, parse_slice bs = Ok r) <-> (exists cs, scalars cs /\ bs = utf8_encode_all cs /\ Strict cs).
+Proof. exact ParserCorollaries.C01_slice. Qed.
+
+(* the model's byte decoder accepts exactly well-formed UTF-8 *)
+Theorem C01_utf8_wellformed : forall bs, snd (utf8_decode bs) = true <-> valid_utf8 bs.
+Proof. exact decode_valid_iff. Qed.
+
+(* on well-formed bytes the byte-slice and the string entry points return the same result,
+   under every option record *)
+Theorem C01_slice_is_str : forall o cs, scalars cs ->
+  parse_slice_with o (utf8_encode_all cs) = parse_str_with o cs.
+Proof. exact ParserCorollaries.C01_slice_is_str. Qed.
+
+(* all text entry points are the same function *)
 Theorem C01_entry_points_text : forall cs,
   parse_str cs = parse_str_with strict cs /\
   parse_str cs = parse_utf8 cs /\
@@ -11,4 +38,33 @@ Theorem C01_entry_points_text : forall cs,
   parse_str cs = parse_with strict (chars cs).
 Proof. exact (fun cs => conj eq_refl (conj eq_refl (conj eq_refl (conj eq_refl (conj eq_refl (conj eq_refl eq_refl)))))). Qed.
 
+(* the general statement behind them: on any error-free stream, under any options, the
+   machine returns (v, m) iff the stream's characters denote v with code map m *)
+Theorem C01_parse_spec : forall o s v m,
+  stream_ok s -> Forall (fun it : item => fst it <= 0x10FFFF) (items_of s) ->
+  (parse_items o s = Ok (v, m) <-> jtext o (items_of s) v m).
+Proof. exact parse_spec. Qed.
+
+(* a byte-order mark is rejected; white space is exactly space, tab, LF, CR *)
+Theorem C01_bom_rejected : forall cs, ~ Strict (0xFEFF :: cs).
+Proof. exact ParserCorollaries.C01_bom_rejected. Qed.
+Theorem C01_whitespace_exact : forall c,
+  ws_char c = true <-> (c = 0x20 \/ c = 0x09 \/ c = 0x0A \/ c = 0x0D).
+Proof. exact ParserCorollaries.C01_whitespace_exact. Qed.
+
+Example C01_slice_rejects_bom : ~ exists r, parse_slice [0xEF; 0xBB; 0xBF; 0x31] = Ok r.
+Proof. exact ParserCorollaries.C01_slice_rejects_bom. Qed.
+Example C01_accepts_somewhere :
+  (exists r, parse_str (s2l " [1, {""a"": null}] ") = Ok r) /\ parse_slice [0x22; 0xC0; 0xAF; 0x22] = Err (EInvalidUtf8 1).
+Proof. vm_compute. split; [eexists; reflexivity|reflexivity]. Qed.
+
+Print Assumptions C01_str.
+Print Assumptions C01_slice.
+Print Assumptions C01_utf8_wellformed.
+Print Assumptions C01_slice_is_str.
 Print Assumptions C01_entry_points_text.
+Print Assumptions C01_parse_spec.
+Print Assumptions C01_bom_rejected.
+Print Assumptions C01_whitespace_exact.
+Print Assumptions C01_slice_rejects_bom.
+Print Assumptions C01_accepts_somewhere.
